@@ -32,3 +32,9 @@ def jobs(tier):
                   defines={"MAXSZ": 4096}, unwind=3, fp=FP[:4] , common_fp=False, kf=["align-size-mod-16"],
                   symbolic=["size"], bounds="size<=4096", native={"sources": []}, timeout=600))
     return js
+
+
+MANIFEST = {
+    "text": 'Bounded model checking of all of Lib/mem/mem.c: for every size up to the bound, every number of extra refs up to the bound, with/without destructor, one nested block — alignment, size, liveness, destructor-exactly-once-on-valid-block, allocator hand-back; the solver decides each query over all values in the bound',
+    "note": 'allocator hook over fixed aligned arenas stands for malloc; sizes/ref counts above the bound, >2 blocks, allocation failure and concurrency are outside the claim',
+}
